@@ -126,3 +126,59 @@ def h_two_tasks(b0, s0, b1, s1, pfin):
     real(tm._pilot_state_cb, [FakePilot(PIDS[1], PSTATES[pfin])])
     reach()
     _verify(tm, pre, [PIDS[1]])
+
+
+# ------------------------------------------------------------------------------
+# through the public registration path: add_pilots -> Pilot.register_callback
+# -> Pilot._update -> TaskManager._pilot_state_cb
+#
+from harness.common import FakeLock                               # noqa: E402
+from harness.c14 import mk_pilot_obj                              # noqa: E402
+from harness.c15 import mk_pmgr                                   # noqa: E402
+
+
+@obligation(params={'one_call': 'bool', 'swap': 'bool', 'ender': (1, 2),
+                    'pfin': (5, 7), 'ist': (0, N_T - 1)},
+            partition={'quick': ('ist', 6), 'thorough': ('ist', 18)},
+            timeout={'quick': 200, 'thorough': 600},
+            funcs=FUNCS + ['radical/pilot/task_manager.py:TaskManager.add_pilots',
+                           'radical/pilot/pilot.py:Pilot.register_callback',
+                           'radical/pilot/pilot.py:Pilot.attach_tmgr',
+                           'radical/pilot/pilot.py:Pilot._update'],
+            bounds='2 real Pilot objects added through TaskManager.add_pilots '
+                   '(one call with a list, or two calls; either order); pilot '
+                   'p0 or p1 then ends (DONE/FAILED/CANCELED) via Pilot._update; '
+                   '1 task per pilot, the one on the ending pilot in an '
+                   'arbitrary state',
+            stubs=['Pilot.as_dict -> constant dict', 'TaskManager.publish/'
+                   'advance -> recorders'])
+def h_add_pilots_end(one_call, swap, ender, pfin, ist):
+    """every added pilot's end is noticed and fails exactly its own tasks"""
+    tm = mk_tmgr()
+    tm.publish = lambda *a, **k: None
+    pm = mk_pmgr()
+    pm._pcb_lock  = FakeLock()
+    pm._callbacks = {m: dict() for m in rpc.PMGR_METRICS}
+    pilots = []
+    for pid in (PIDS[1], PIDS[2]):
+        p = mk_pilot_obj(pm, pid, rps.PMGR_ACTIVE)
+        p._tmgr   = None
+        p.as_dict = (lambda pid=pid: {'uid': pid, 'type': 'pilot',
+                                      'state': rps.PMGR_ACTIVE})
+        pm._pilots[pid] = p
+        pilots.append(p)
+    order = list(reversed(pilots)) if swap else list(pilots)
+    if one_call:
+        real(tm.add_pilots, order)
+    else:
+        for p in order:
+            real(tm.add_pilots, p)
+    epid = PIDS[ender]
+    opid = PIDS[3 - ender]
+    pre  = {'t0': (epid, TSTATES[ist]),
+            'b0': (opid, rps.AGENT_EXECUTING)}
+    for uid, (pid, st) in pre.items():
+        add_task(tm, uid, st, pilot=pid)
+    real(pm._pilots[epid]._update, {'uid': epid, 'state': PSTATES[pfin]})
+    reach()
+    _verify(tm, pre, [epid])
